@@ -135,6 +135,10 @@ fn run_c11(r: &mut Rng, n: u64) {
     // the alphabet table, byte by byte ("all 256 byte values": the ASCII half here, as a digit in front of a terminator; bytes >= 0x80 cannot stand
     // alone in a &str and are fed through the decoder in the decode_faults stream): a byte is a digit exactly when it is one of the 64
     for b in 0u8..128 { vlq_parse_case(&format!("t{}", b), &[b, b'A']); vlq_parse_case(&format!("t{}b", b), &[b'C', b]); }
+    // long lists: a text is as long as its list (no cap): 66..200 single-digit values, six to ten 13-digit values
+    for len in [64usize, 65, 66, 67, 100, 200] { vlq_parse_case(&format!("L{}", len), &vec![b'A'; len]); vlq_gen_case(&format!("G{}", len), &vec![7i64; len]); }
+    for cnt in [5usize, 6, 10] { let big: Vec<i64> = (0..cnt).map(|j| if j % 2 == 0 { (1i64 << 62) - 1 - j as i64 } else { -((1i64 << 61) + j as i64) }).collect(); vlq_gen_case(&format!("B{}", cnt), &big);
+        let mut txt = String::new(); for v in &big { own_vlq(*v, &mut txt); } vlq_parse_case(&format!("P{}", cnt), txt.as_bytes()); }
     let ext: Vec<u8> = alpha.iter().cloned().chain([b'!', b'-', b'_', 0x7f, b'=']).collect();
     for &a in &ext { vlq_parse_case(&format!("x{}", k), &[a]); k += 1; for &b in &ext { vlq_parse_case(&format!("x{}", k), &[a, b]); k += 1; } }
     for p in 0..62 { for d in [-1i64, 0, 1] { let v = (1i64 << p) + d; if v.unsigned_abs() < (1u64 << 62) { vlq_gen_case(&format!("x{}", k), &[v]); k += 1; vlq_gen_case(&format!("x{}", k), &[-v]); k += 1; } } }
@@ -246,7 +250,8 @@ fn run_lines(r: &mut Rng, n: u64) {
     // only LF, CR and CRLF end a line: the other characters Unicode or ECMAScript call line terminators or white space (U+2028, U+2029, U+0085,
     // vertical tab, form feed) are ordinary content
     let al = ['a', '\u{e9}', '\u{1F44C}', '\n', '\r', 'b', '\n', '\r', '\u{2028}', '\u{2029}', '\u{85}', '\u{b}', '\u{c}', 'c'];
-    for i in 0..n { let len = r.below(10); let text: String = (0..len).map(|_| al[r.below(if i % 3 == 0 { 14 } else { 8 }) as usize]).collect(); let k = 1 + r.below(5); let reqs: Vec<i64> = (0..k).map(|_| match r.below(13) { 0 => -2, 1 => u32::MAX as i64, 2 => 1000, 12 => -3, _ => r.below(8) as i64 - 1 }).collect(); lines_case(&format!("r{}", i), &text, &reqs); }
+    for i in 0..n { let len = r.below(10); let mut text: String = (0..len).map(|_| al[r.below(if i % 3 == 0 { 14 } else { 8 }) as usize]).collect();
+        if i % 11 == 5 { text.insert(0, '\u{feff}'); } let k = 1 + r.below(5); let reqs: Vec<i64> = (0..k).map(|_| match r.below(13) { 0 => -2, 1 => u32::MAX as i64, 2 => 1000, 12 => -3, _ => r.below(8) as i64 - 1 }).collect(); lines_case(&format!("r{}", i), &text, &reqs); }
 }
 fn run_adjust(r: &mut Rng, n: u64) {
     let t = |dl, dc, sl, sc| Tok { dl, dc, sl, sc, src: 0, name: !0, range: false };
@@ -260,6 +265,7 @@ fn run_adjust(r: &mut Rng, n: u64) {
         let mut mk = |r: &mut Rng, by_src: bool| -> Vec<Tok> { let k = r.below(6); let wide = r.below(4) == 0; (0..k).map(|j| { let key = (r.below(3) as u32, r.below(if wide { 30 } else { 6 }) as u32); let other = (r.below(3) as u32, r.below(if wide { 30 } else { 8 }) as u32 + j as u32);
             let mut x = if by_src { t(other.0, other.1, key.0, key.1) } else { t(key.0, key.1, other.0, other.1) };
             if !by_src { x.src = if r.below(6) == 0 { !0 } else { r.below(4) as u32 }; x.name = if x.src != !0 && r.below(2) == 0 { r.below(4) as u32 } else { !0 }; x.range = r.below(3) == 0; }
+            else if r.below(5) == 0 { x.src = !0; }     // an adjustment token needs no source: its positions are what counts
             x }).collect() };
         let o = mk(r, false); let a = mk(r, true); adjust_case(&format!("r{}", i), &o, &a);
         // whole-line edits: every adjustment token maps a line start to a line start; the lines come in any order (moved, reversed, dropped, doubled)
@@ -451,6 +457,7 @@ fn run_hdr(r: &mut Rng, n: u64) {
         // something in front of the document (after the header, if there is one): JSON white space is fine, other "white space" (form feed,
         // vertical tab, NUL, no-break space) is not -- on every path alike
         b"\x0c{\"version\":3,\"sources\":[\"a\"],\"names\":[],\"mappings\":\"AAAA\"}", b" \t\r\n{\"version\":3,\"sources\":[\"a\"],\"names\":[],\"mappings\":\"AAAA\"}",
+        b"{\"version\":3,\"sources\":[\"a\"],\"names\":[],\"mappings\":\"AAAA\",\"x_generator\":\"caf\xe9 bundler\"}", b"{\"x_note\":[\"\xff\xfe\"],\"version\":3,\"sources\":[\"a\"],\"names\":[],\"mappings\":\"AAAA\"}",
         b"\x0b{\"version\":3,\"sources\":[\"a\"],\"names\":[],\"mappings\":\"AAAA\"}", b"\x00{\"version\":3,\"sources\":[\"a\"],\"names\":[],\"mappings\":\"AAAA\"}", b"\xc2\xa0{\"version\":3,\"sources\":[\"a\"],\"names\":[],\"mappings\":\"AAAA\"}"];
     let headers: Vec<&[u8]> = vec![b"", b")]}'\n", b")]}'\r\n", b")]}'\r", b")]}'", b")\n", b"]\r\r\n", b"}garbage)]}\n", b"'\n\n", b")]}\rx\n", b"x)]}\n", b")\r\n\r\n", b")]}'\r\r\n", b"'\r", b"]\n\r\n", b"}{\n",
         b")]}'\r)]}'\n", b")\r]\n", b"]\r}\r\n", b"'\r'\r'\n", b")\r\r", b"}\r)",
@@ -611,7 +618,7 @@ fn own_vlq(mut n: i64, out: &mut String) {
     loop { let mut d = (v & 31) as usize; v >>= 5; if v != 0 { d |= 32; } out.push(A[d] as char); if v == 0 { break; } }
 }
 fn run_decode(r: &mut Rng, n: u64, with_faults: bool) {
-    let spool = ["a.js", "b.js", "", "/abs/c.js", "http://x/d.js", "q/\u{e9}.js", "http:h.js", "https:/d.js", "https:", "http", "src/\u{e9}.js", "\u{65e5}\u{672c}\u{8a9e}.js", "//x/y.js", "HTTP://x/d.js"];
+    let spool = ["a.js", "b.js", "", "/abs/c.js", "http://x/d.js", "q/\u{e9}.js", "http:h.js", "https:/d.js", "https:", "http", "src/\u{e9}.js", "\u{65e5}\u{672c}\u{8a9e}.js", "//x/y.js", "HTTP://x/d.js", "root/a.js", "root/root/b.js", "webpack:///./src/app.js", "rootx.js", "http://h/r/s.js"];
     for i in 0..n {
         // explicit first cases of the faulted stream: every foreign character of the list at every offset of a valid segment
         const FOREIGN: [char; 21] = ['!', ' ', '=', '-', '_', '\u{e9}', '\u{7f}', '\u{0}', '"', '\\', '\u{141}', '\u{143}', '\u{4e2b}', '\u{1f441}', '\u{ff21}', '\u{80}', '\u{c1}', '\u{f0}', '\u{eb}', '\u{f5}', '\u{ef}'];
@@ -624,7 +631,7 @@ fn run_decode(r: &mut Rng, n: u64, with_faults: bool) {
         // abstract document: lines of items; absolute fields
         let nlines = 1 + r.below(4); let mut mappings = String::new();
         let (mut ps, mut pl, mut pc, mut pn) = (0i64, 0i64, 0i64, 0i64);
-        let fault = if with_faults && r.below(10) < 6 { 1 + r.below(13) } else { 0 };
+        let fault = if with_faults && r.below(10) < 6 { 1 + r.below(14) } else { 0 };
         // "extreme numbers": some documents use huge deltas (62-bit values, +-2^32, +-2^31) in the position fields, several times with the same sign
         let huge = r.below(12) == 0; let hsign: i64 = if r.below(2) == 0 { 1 } else { -1 };
         let hv = |r: &mut Rng| -> i64 { [(1i64 << 62) - 1, 1i64 << 61, 1i64 << 32, (1i64 << 32) - 1, 1i64 << 31, 3][r.below(6) as usize] };
@@ -662,6 +669,7 @@ fn run_decode(r: &mut Rng, n: u64, with_faults: bool) {
                 if hit && fault == 8 { let at = r.below(seg.len() as u64 + 1) as usize; seg.insert(at, ['!', ' ', '=', '-', '_', '\u{e9}', '\u{7f}', '\u{0}', '"', '\\', '\u{141}', '\u{143}', '\u{4e2b}', '\u{1f441}', '\u{ff21}', '\u{80}', '\u{c1}', '\u{f0}', '\u{eb}', '\u{f5}', '\u{ef}'][r.below(21) as usize]); fault_done = true; }   // a foreign byte anywhere in the segment
                 if hit && fault == 9 { seg.push('g'); fault_done = true; }                              // continuation digit at the end
                 if hit && fault == 10 { seg.push_str(["gggggggggggggB", "gggggggggggggA", "2ggggggggggggA", "ggggggggggggggggA", "hggggggggggggggB"][r.below(5) as usize]); fault_done = true; }   // 14+ digits, also with zero payloads only
+                if hit && fault == 14 { seg = ["g", "i", "hh", "4z", "ggggggggggggg"][r.below(5) as usize].to_string(); fault_done = true; }   // the whole segment is one value that never ends
                 if hit && fault == 11 { seg.push_str("////////////f"); fault_done = true; }            // 13 digits whose top bits are lost
                 mappings.push_str(&seg);
             }
@@ -721,7 +729,11 @@ fn run_decode(r: &mut Rng, n: u64, with_faults: bool) {
             // index decodes exactly when the document does, and fails with the document's error
             let wrap_differs = if r.below(3) == 0 { let docv: serde_json::Value = serde_json::from_slice(&text).unwrap();
                     let sec = |inner: serde_json::Value, with_url: bool| { let mut s = serde_json::json!({"offset": {"line": 0, "column": 0}, "map": inner}); if with_url { s.as_object_mut().unwrap().insert("url".into(), serde_json::json!("s.map")); } serde_json::json!({"version": 3, "sections": [s]}) };
-                    let with_url = r.below(2) == 0; let w = if r.below(3) == 0 { sec(sec(docv, with_url), r.below(2) == 0) } else { sec(docv, with_url) };
+                    let with_url = r.below(2) == 0; let good = serde_json::json!({"version": 3, "sources": ["g.js"], "names": [], "mappings": "AAAA"});
+                    let w = match r.below(5) { 0 => sec(sec(docv, with_url), r.below(2) == 0),
+                        // beside a healthy section at the very same offset (before or after it): every embedded map is read, shadowed or not
+                        1 | 2 => { let mut both = vec![serde_json::json!({"offset": {"line": 0, "column": 0}, "map": docv}), serde_json::json!({"offset": {"line": 0, "column": 0}, "map": good})]; if r.below(2) == 0 { both.reverse(); } serde_json::json!({"version": 3, "sections": both}) }
+                        _ => sec(docv, with_url) };
                     let wout = match catch_unwind(AssertUnwindSafe(|| sourcemap::decode_slice(&serde_json::to_vec(&w).unwrap()))) {
                         Ok(Ok(sourcemap::DecodedMap::Index(ix))) => { fn all_there(ix: &sourcemap::SourceMapIndex) -> bool { ix.sections().all(|s| match s.get_sourcemap() { Some(sourcemap::DecodedMap::Index(i)) => all_there(i), Some(_) => true, None => false }) }
                             if all_there(&ix) { "ok".to_string() } else { "ok-but-a-section-lost-its-map".to_string() } }
@@ -1205,6 +1217,14 @@ fn run_api(r: &mut Rng, n: u64, group: &str) {
                       let ans = |m: &sourcemap::SourceMap, l: u32, c: u32| m.lookup_token(l, c).map(|t| (t.get_raw_token(), t.get_src_line(), t.get_src_col(), t.get_dst()));
                       chk("lookups do not depend on embedded contents", toks.iter().all(|t| { let (l, c) = t.get_dst(); [0u32, 1, 5, 40, 1000, 70000].iter().all(|d| ans(&sm, l, c.saturating_add(*d)) == ans(&bare, l, c.saturating_add(*d))) && ans(&sm, l.saturating_add(1), 0) == ans(&bare, l.saturating_add(1), 0) }));
                       chk("range offset", toks.iter().all(|t| { let (l, c) = t.get_dst(); [1u32, 5, 1000].iter().all(|d| match sm.lookup_token(l, c.saturating_add(*d)) { Some(f) if f.get_dst() == (l, c) && f.get_raw_token() == t.get_raw_token() && c.checked_add(*d).is_some() => f.get_src_col() == if f.is_range() { f.get_raw_token().src_col.saturating_add(*d) } else { f.get_raw_token().src_col }, _ => true }) })); }
+                    { let mut doc: serde_json::Value = { let mut o = vec![]; sm.to_writer(&mut o).unwrap(); serde_json::from_slice(&o).unwrap() };
+                      doc.as_object_mut().unwrap().insert("x_facebook_sources".into(), serde_json::json!([[{"names": ["f"], "mappings": "AAA"}]]));
+                      let as_regular = sourcemap::DecodedMap::Regular(sm.clone()); let as_hermes = sourcemap::decode_slice(&serde_json::to_vec(&doc).unwrap()).ok();
+                      let pos: Vec<(u32, u32)> = toks.iter().flat_map(|t| { let (l, c) = t.get_dst(); [(l, c), (l, c.saturating_add(2)), (l.saturating_add(1), 0)] }).collect();
+                      chk("DecodedMap::lookup_token (regular)", pos.iter().all(|&(l, c)| as_regular.lookup_token(l, c).map(|t| t.get_raw_token()) == sm.lookup_token(l, c).map(|t| t.get_raw_token())));
+                      if let Some(sourcemap::DecodedMap::Hermes(h)) = &as_hermes { let dm = as_hermes.as_ref().unwrap();
+                          chk("DecodedMap::lookup_token (hermes)", pos.iter().all(|&(l, c)| dm.lookup_token(l, c).map(|t| t.get_raw_token()) == h.lookup_token(l, c).map(|t| t.get_raw_token()))
+                              && (h.get_token_count() != sm.get_token_count() || pos.iter().all(|&(l, c)| dm.lookup_token(l, c).map(|t| t.get_dst()) == sm.lookup_token(l, c).map(|t| t.get_dst())))); } }
                     let mut it = sm.tokens(); if let Some(t) = toks.last() { let (l, c) = t.get_dst(); chk("seek", it.seek(l, c) && it.next().map(|x| x.get_dst() > (l, c) || x.get_dst() == (l, c)).unwrap_or(true)); }
                 }
                 "history" => {  // C04 over histories of map-producing operations: after every step the tokens are ordered and lookups are right
@@ -1273,6 +1293,14 @@ fn run_api(r: &mut Rng, n: u64, group: &str) {
                       if let Some(a) = v.get_mut("sections").and_then(|x| x.as_array_mut()) { a.reverse(); if a.len() > 2 { a.swap(0, 1); } }
                       match sourcemap::SourceMapIndex::from_slice(&serde_json::to_vec(&v).unwrap()) { Ok(back) => chk("sections listed out of order", (0..n).all(|j| back.get_section(j).map(|x| x.get_offset()) == Some(offs[j as usize])) && qs.iter().zip(&before).all(|(q, b)| &back.lookup_token(q.0, q.1).map(|t| view(&t)) == b)),
                           Err(_) => chk("index with reordered sections reads", false) } }
+                    // the same index with one section reduced to its offset (no map, no url) in the document: it is still a section -- its positions resolve
+                    // to nothing, the others are unchanged, flatten refuses
+                    { let mut v: serde_json::Value = serde_json::from_slice(&o).unwrap(); let kk = k as usize;
+                      if let Some(a) = v.get_mut("sections").and_then(|x| x.as_array_mut()) { if let Some(so) = a.get_mut(kk).and_then(|x| x.as_object_mut()) { so.remove("map"); so.remove("url"); } }
+                      match sourcemap::SourceMapIndex::from_slice(&serde_json::to_vec(&v).unwrap()) {
+                          Ok(back) => chk("offset-only section", back.get_section_count() == n && back.get_section(k).map(|x| x.get_sourcemap().is_none()) == Some(true) && matches!(back.flatten(), Err(sourcemap::Error::CannotFlatten(_)))
+                              && qs.iter().zip(&before).all(|(q, b)| { let a = back.lookup_token(q.0, q.1).map(|t| view(&t)); if owner(q) == Some(kk) { a.is_none() } else { &a == b } })),
+                          Err(_) => chk("index with an offset-only section reads", false) } }
                     // taking one section's map away: positions owned by that section resolve to nothing, all others are unchanged, flatten refuses
                     let taken = idx.get_section_mut(k).unwrap().get_sourcemap_mut().is_some();
                     let old = idx.get_section(k).unwrap().get_sourcemap().cloned();
@@ -1340,6 +1368,11 @@ fn run_api(r: &mut Rng, n: u64, group: &str) {
                     // rewriting twice changes nothing more
                     let once = sm.clone().rewrite(&sourcemap::RewriteOptions::default()).map(|m| map_obs(&m)).ok(); let twice = sm.clone().rewrite(&sourcemap::RewriteOptions::default()).and_then(|m| m.rewrite(&sourcemap::RewriteOptions::default())).map(|m| map_obs(&m)).ok();
                     chk("rewrite idempotent", once == twice && once.is_some());
+                    // file and debug id are preserved, whatever the id looks like (a plain UUID, the nil id, an id with an appendix)
+                    for idtext in ["3b1f9a62-0000-4000-8000-000000000001", "00000000-0000-0000-0000-000000000000", "3b1f9a62-0000-4000-8000-000000000001-1", "3b1f9a62-0000-4000-8000-000000000001-ffffffff"] {
+                        let mut withid = sm.clone(); withid.set_debug_id(Some(idtext.parse().unwrap())); let id = withid.get_debug_id(); if id.map(|d| d.to_string()).as_deref() != Some(idtext) { chk("set_debug_id keeps the id", false); }
+                        for opts in [sourcemap::RewriteOptions::default(), sourcemap::RewriteOptions { with_names: false, with_source_contents: false, strip_prefixes: &["~"], ..Default::default() }] {
+                            let rw = withid.clone().rewrite(&opts).unwrap(); chk("rewrite keeps the debug id", rw.get_debug_id() == id && id.is_some() && rw.get_file() == withid.get_file()); } }
                 }
                 "reader" => {   // C12: every from_reader / decode(reader) variant agrees with its slice twin
                     let dm: sourcemap::DecodedMap = match r.below(3) { 0 => sourcemap::DecodedMap::Index(gen_index(r, 1)), 1 => sourcemap::decode_slice(&gen_hermes_doc(r)).unwrap(), _ => sourcemap::DecodedMap::Regular(gen_map(r, false)) };
@@ -1402,6 +1435,12 @@ fn run_api(r: &mut Rng, n: u64, group: &str) {
                     if let (Ok(a), Ok(b)) = (a, b) {
                         chk("same answers", a.module_count() == b.module_count() && a.startup_code().ok() == b.startup_code().ok() && (0..6).all(|k| a.get_module(k).map(|m| m.map(|x| x.data().to_vec())).ok() == b.get_module(k).map(|m| m.map(|x| x.data().to_vec())).ok()));
                         chk("bundle_type", a.bundle_type() == RamBundleType::Indexed);
+                        // the iterator through the std adaptors (nth, skip, step_by, last, count): the k-th item is the k-th item
+                        { let show = |x: sourcemap::Result<sourcemap::ram_bundle::RamBundleModule>| match x { Ok(m) => format!("{}={}", m.id(), hex(m.data())), Err(_) => "err".to_string() };
+                          let all: Vec<String> = a.iter_modules().take(12).map(show).collect();
+                          chk("iterator adaptors", (0..4usize).all(|k| a.iter_modules().nth(k).map(show) == all.get(k).cloned() && a.iter_modules().skip(k).take(3).map(show).collect::<Vec<_>>() == all.iter().skip(k).take(3).cloned().collect::<Vec<_>>())
+                              && a.iter_modules().take(12).step_by(2).map(show).collect::<Vec<_>>() == all.iter().step_by(2).cloned().collect::<Vec<_>>()
+                              && { let mut it = a.iter_modules(); let first = it.next().map(show); let second = it.nth(1).map(show); first == all.first().cloned() && second == all.get(2).cloned() }); }
                         chk("module id/source_view", a.iter_modules().take(8).all(|m| match m { Ok(m) => a.get_module(m.id()).ok().flatten().map(|x| x.data() == m.data()).unwrap_or(false) && match std::str::from_utf8(m.data()) { Ok(t) => m.source_view().map(|sv| sv.source() == t).unwrap_or(false), Err(_) => m.source_view().is_err() }, Err(_) => true }));
                     }
                 }
